@@ -84,7 +84,7 @@ def describe(ents, reps, msgs):
         cls = None
         for i, r in enumerate(reps):
             try:
-                same = r.equals(e)
+                same = type(r) is type(e) and r.equals(e)
             except Exception:
                 same = False
             if same:
@@ -179,7 +179,7 @@ def impl_compare(fmt, ref_text, l10n_text, verdicts=None, add_text=None):
     items = details.get(name, []) if isinstance(details, dict) else details
     notes, cerr, cwarn, unknown = canon_details(items, keymap, msgs)
     res = {
-        "ref": dref, "l10n": dl10n,
+        "ref": dref, "l10n": dl10n, "ftl": ftl_line(ref_ents, l10n_ents, msgs) if fmt == "ftl" else None,
         "canon": "ok " + show_updates(obs.calls) + " |" + "".join(" " + n for n in notes),
         "checker": [cerr, cwarn], "unknown": unknown, "hooks": cc.hooks,
         "summary": dict(js["summary"].get("xx", {})),
@@ -224,3 +224,275 @@ def impl_words_literal(val):
     """Entry.count_words on a literal value (the base implementation, format independent)"""
     from compare_locales.parser.base import LiteralEntity
     return LiteralEntity("k", val, "k=" + val).count_words()
+
+
+# ====================================================================== round 4
+# ---------------------------------------------------------------------- Fluent: the AST-level model (Ops/C03.lean c03.ftl*)
+def ftl_items(ents, msgs):
+    from impl.fluentcheck import ser_entry
+    out = []
+    for e in ents:
+        if isinstance(e, Junk):
+            m = e.error_message()
+            if m not in msgs:
+                msgs.append(m)
+            out.append("J %s %d" % (key_wire(e.key), msgs.index(m)))
+        else:
+            out.append("E %s %s" % (key_wire(e.key), ser_entry(e.entry)))
+    return out
+
+
+def ftl_line(ref_ents, l10n_ents, msgs):
+    """`c03.ftlcmp` line: the comparison of two Fluent files from their fluent.syntax ASTs alone"""
+    msgs = list(msgs)
+    return " ".join(["c03.ftlcmp", str(len(ref_ents)), str(len(l10n_ents))] + ftl_items(ref_ents, msgs) + ftl_items(l10n_ents, msgs))
+
+
+def impl_ftl_pool(text):
+    """every entity of one Fluent file: wire AST, count_words, and the matrix of `equals` / FluentAttribute.equals"""
+    from impl.fluentcheck import ser_entry
+    p = type(P.getParser("a.ftl"))()
+    p.readUnicode(text)
+    ents = [e for e in p.parse() if not isinstance(e, Junk)]
+    out = {"keys": [e.key for e in ents], "ser": [ser_entry(e.entry) for e in ents], "words": [e.count_words() for e in ents],
+           "eq": [], "attrs": []}
+    for a in ents:
+        row, arow = [], []
+        for b in ents:
+            row.append(1 if a.equals(b) else 0)
+            arow.append([1 if x.equals(y) else 0 for x, y in zip(a.attributes, b.attributes)])
+        out["eq"].append(row)
+        out["attrs"].append(arow)
+    return out
+
+
+# ---------------------------------------------------------------------- one comparer, a sequence of jobs (c03.sess)
+CAPS = {"properties": P.PropertiesParser.capabilities, "dtd": P.DTDParser.capabilities, "ini": P.IniParser.capabilities,
+        "inc": P.DefinesParser.capabilities, "ftl": P.FluentParser.capabilities, "po": P.PoParser.capabilities,
+        "android": P.AndroidParser.capabilities}
+CHECK_RE = re.compile(r" at line \d+, column \d+ for (.*)$", re.S)
+
+
+def data_wire(d):
+    if d is None:
+        return "-"
+    if isinstance(d, (tuple, list)):
+        return "T %d %s" % (len(d), " ".join("-" if x is None else "t:" + codes(x) for x in d))
+    return "t:" + codes(d)
+
+
+def mk_filter(files, rules):
+    """rules: [[file index | -1, "*" | None | str | [msgid, msgctxt], verdict]]; first match wins, "error" otherwise"""
+    def filt(file, entity=None):
+        for fi, sel, ret in rules:
+            if fi != -1:
+                g = files[fi]
+                if (g.file, g.module, g.locale) != (file.file, file.module, file.locale):
+                    continue
+            if sel != "*":
+                want = tuple(sel) if isinstance(sel, list) else sel
+                if not (type(entity) is type(want) and entity == want):
+                    continue
+            return ret
+        return "error"
+    return filt
+
+
+def ents_wire(es):
+    return " ".join("%s %d %d %d %d" % tuple(e) for e in es)
+
+
+def note_of(cat, data, keymap, msgs):
+    if cat == "missingEntity":
+        return "M:" + key_wire(tuple(data) if isinstance(data, (list, tuple)) else data)
+    if cat == "obsoleteEntity":
+        return "O:" + key_wire(tuple(data) if isinstance(data, (list, tuple)) else data)
+    if cat in ("missingFile", "obsoleteFile"):
+        return ("F:" if cat == "missingFile" else "R:") + "file"
+    lvl = "E" if cat == "error" else "W"
+    m = re.match(r"^(.*) occurs (\d+) times$", data, re.S)
+    if data == "Parser error in en-US":
+        return lvl + ":refjunk"
+    if data in msgs:
+        return lvl + ":junk:%d" % msgs.index(data)
+    if m and m.group(1) in keymap:
+        return lvl + ":dup:%s:%s" % (keymap[m.group(1)], m.group(2))
+    if CHECK_RE.search(data):
+        return lvl + ":check"
+    return lvl + ":other"
+
+
+def impl_session(spec):
+    """ONE ContentComparer (its ObserverList and project observers) through the jobs of `spec`.
+
+    Returns the driver line (`c03.sess`), the canonical final state, and per job what the oracle needs: the notifications the
+    comparer raised (recorded at ObserverList.notify), the stats it pushed (ObserverList.updateStats), the classification hooks."""
+    from impl.observer import show_obs
+    from impl import pipeline as PL
+    from compare_locales.compare import content as content_mod
+    d = os.path.join(workdir(), "sess")
+    shutil.rmtree(d, ignore_errors=True)
+    os.makedirs(d)
+    files = []
+    for f in spec["files"]:
+        full = os.path.join(d, f["path"])
+        if f.get("text") is not None:
+            os.makedirs(os.path.dirname(full), exist_ok=True)
+            with open(full, "w", encoding="utf-8", newline="") as fh:
+                fh.write(f["text"])
+        elif f.get("dir"):
+            os.makedirs(full, exist_ok=True)
+        files.append(File(full, f["file"], module=f["module"], locale=f["locale"]))
+    quiet = spec["quiet"]
+    cc = RecordingComparer()
+    cc.observers.quiet = quiet
+    for rules in spec["observers"]:
+        cc.observers.append(Observer(quiet=quiet, filter=None if rules is None else mk_filter(files, rules)))
+    log, pushes = [], []
+    real_notify, real_update = cc.observers.notify, cc.observers.updateStats
+
+    def notify(category, file, data):
+        rv = real_notify(category, file, data)
+        log.append((category, file, data, rv))
+        return rv
+
+    def update(file, stats):
+        pushes.append((file, dict(stats)))
+        return real_update(file, stats)
+    cc.observers.notify, cc.observers.updateStats = notify, update
+
+    toks = ["c03.sess", str(quiet), "F", str(len(files))]
+    for f in files:
+        toks += ["t:" + codes(f.file), "-" if f.module is None else "t:" + codes(f.module), "-" if f.locale is None else "t:" + codes(f.locale)]
+    toks += ["O", str(len(spec["observers"]))]
+    for rules in spec["observers"]:
+        if rules is None:
+            toks.append("N")
+        else:
+            toks += ["R", str(len(rules))]
+            for fi, sel, ret in rules:
+                toks += ["*" if fi == -1 else str(fi), "*" if sel == "*" else data_wire(sel), ret[0]]
+    toks += ["J", str(len(spec["jobs"]))]
+    jobs_out, outcomes = [], []
+    saved = (content_mod.shutil, content_mod.codecs)
+    try:
+        for n, job in enumerate(spec["jobs"]):
+            ref, l10n = files[job["ref"]], files[job["l10n"]]
+            mergep = os.path.join(d, "merge-%d" % n, os.path.basename(l10n.file)) if job["merge"] else None
+            P.Junk.junkid = 0
+            keymap, msgs = {}, []
+            jt = [job["op"], str(job["ref"]), str(job["l10n"]), "1" if job["merge"] else "0"]
+            # ---- the model's input, computed BEFORE the real call from a parser of our own
+            if job["op"] != "rm":
+                try:
+                    parser = type(P.getParser(ref.file))()
+                except UserWarning:
+                    parser = None
+                if parser is None:
+                    jt.append("np")
+                else:
+                    caps = parser.capabilities
+                    body = None
+                    try:
+                        parser.readFile(ref)
+                        ref_text = parser.ctx.contents
+                        ref_ents = None if job["level"] == "text" else list(parser.parse())
+                    except Exception as e:
+                        body = ["re"] + ([str(caps)] if job["op"] == "add" else []) + ["t:" + codes(str(e))]
+                    if body is None and job["op"] == "cmp":
+                        try:
+                            parser.readFile(l10n)
+                            l10n_text = parser.ctx.contents
+                            l10n_ents = None if job["level"] == "text" else list(parser.parse())
+                        except Exception as e:
+                            body = ["le", "t:" + codes(str(e))]
+                    if body is None and job["level"] == "text":
+                        body = ["tx", job["fmt"], "t:" + codes(ref_text)] + (["t:" + codes(l10n_text)] if job["op"] == "cmp" else [])
+                    elif body is None and job["op"] == "add":
+                        body = ["en", str(caps), str(len(ref_ents)), ents_wire(describe(ref_ents, [], []))]
+                        for e in ref_ents:
+                            keymap[str(e.key)] = key_wire(e.key)
+                    elif body is None:
+                        reps = []
+                        dref = describe(ref_ents, reps, msgs)
+                        dl10n = describe(l10n_ents, reps, msgs)
+                        for e in ref_ents + l10n_ents:
+                            keymap[str(e.key)] = key_wire(e.key)
+                        body = ["en", str(len(dref)), str(len(dl10n)), ents_wire(dref), ents_wire(dl10n), None]   # checks: after the call
+                    jt += body
+            # ---- the real call
+            P.Junk.junkid = 0
+            nlog, npush = len(log), len(pushes)
+            cc.hooks = {"changed": [], "unchanged": []}
+            mlog = []
+            content_mod.shutil, content_mod.codecs = PL._Shutil(mlog), PL._Codecs(mlog)
+            try:
+                if job["op"] == "cmp":
+                    cc.compare(ref, l10n, mergep)
+                elif job["op"] == "add":
+                    cc.add(ref, l10n, mergep)
+                else:
+                    cc.remove(ref, l10n, mergep)
+            finally:
+                content_mod.shutil, content_mod.codecs = saved
+            l10n_bytes = b""
+            if os.path.isfile(l10n.fullpath):
+                with open(l10n.fullpath, "rb") as fh:
+                    l10n_bytes = fh.read()
+            outcomes.append(PL.merge_outcome(mlog, mergep, ref.fullpath, l10n.fullpath, l10n_bytes))
+            mine = log[nlog:]
+            if jt and jt[-1] is None:
+                # the checker's messages, grouped by the reference key they name, in the order raised
+                per = {}
+                for cat, f, data, rv in mine:
+                    m = CHECK_RE.search(data) if (cat in ("error", "warning") and isinstance(data, str)) else None
+                    if m and m.group(1) in keymap:
+                        per.setdefault(keymap[m.group(1)], []).append(("e" if cat == "error" else "w") + " t:" + codes(data))
+                chk = [str(len(per))]
+                for k, items in per.items():
+                    chk += [k, str(len(items))] + items
+                jt[-1] = " ".join([str(len(msgs))] + ["t:" + codes(m) for m in msgs] + chk)
+            toks += jt
+            jobs_out.append({
+                "notes": [[files.index(f), note_of(cat, data, keymap, msgs), rv] for cat, f, data, rv in mine],
+                "pushes": [[files.index(f), st] for f, st in pushes[npush:]],
+                "hooks": cc.hooks, "body": jt[4] if len(jt) > 4 else "rm",
+            })
+    finally:
+        content_mod.shutil, content_mod.codecs = saved
+    canon = "ok m=" + ",".join(outcomes) + " |L " + show_obs(cc.observers) + "".join(" |O " + show_obs(o) for o in cc.observers)
+    return {"line": " ".join(" ".join(toks).split()), "canon": canon, "jobs": jobs_out,
+            "summary": {"L": {str(k): dict(v) for k, v in cc.observers.summary.items()},
+                        "O": [{str(k): dict(v) for k, v in o.summary.items()} for o in cc.observers]}}
+
+
+def impl_keyed(fmt, text, probes, nitems=None):
+    """`x in entities`, `entities[x]` on the KeyedTuple of a parsed file, for str / tuple / int / entity-object / list arguments"""
+    p = type(P.getParser(FNAME[fmt]))()
+    p.readUnicode(text)
+    ents = p.parse()
+    p.readUnicode(text)
+    other = p.parse()          # entity objects of another tuple
+    desc = describe(list(ents), [], [])
+    head = "c03.keyed %d %s" % (len(desc), ents_wire(desc))
+    out = []
+    for pr in probes:
+        if pr[0] == "k":
+            arg = tuple(pr[1]) if isinstance(pr[1], list) else pr[1]
+            tok = "k " + key_wire(arg)
+        elif pr[0] == "i":
+            arg, tok = pr[1], "i %d" % pr[1]
+        elif pr[0] == "o":
+            arg = ents[pr[1]] if pr[1] < len(ents) else (other[0] if len(other) else object())
+            tok = "o %d" % pr[1]
+        else:
+            arg, tok = ["unhashable"], "u"
+        c = 1 if (arg in ents) else 0
+        try:
+            got = ents[arg]
+            idx = next(i for i, e in enumerate(ents) if e is got)
+            g = "item %d" % idx
+        except (TypeError, IndexError) as e:
+            g = type(e).__name__
+        out.append([" ".join((head + " " + tok).split()), "%d %s" % (c, g), pr])
+    return out
